@@ -29,6 +29,7 @@ import (
 	"github.com/consensys/gnark-crypto/ecc/bw6-761/kzg"
 	"github.com/consensys/gnark-crypto/ecc/bw6-761/shplonk"
 	"github.com/consensys/gnark-crypto/ecc/bw6-761/twistededwards"
+	fhash "github.com/consensys/gnark-crypto/field/hash"
 	ghash "github.com/consensys/gnark-crypto/hash"
 )
 
@@ -50,6 +51,10 @@ func init() {
 	rG1 := func(r *rng, n int) []curve.G1Affine { return curve.BatchScalarMultiplicationG1(&g1, rfrs(r, n)) }
 	rG2 := func(r *rng, n int) []curve.G2Affine { return curve.BatchScalarMultiplicationG2(&g2, rfrs(r, n)) }
 	frBytes := func(r *rng) []byte { e := rfr(r); b := e.Bytes(); return b[:] }
+	// slice arguments as WINDOWS of larger buffers (see c18Win)
+	wfrs := func(r *rng, n int) []fr.Element { return c18Win(r, rfrs(r, n)) }
+	wG1 := func(r *rng, n int) []curve.G1Affine { return c18Win(r, rG1(r, n)) }
+	wG2 := func(r *rng, n int) []curve.G2Affine { return c18Win(r, rG2(r, n)) }
 
 	// ---- pairings with precomputed lines -------------------------------------------------------------------------
 	mkPair := func(which int) c18Maker {
@@ -72,12 +77,13 @@ func init() {
 			for i := range Q {
 				lines[i] = curve.PrecomputeLines(Q[i])
 			}
+			P, Q, lines = c18Win(r, P), c18Win(r, Q), c18Win(r, lines)
 			s := &c18Sess{args: []c18Arg{{"P", &P}, {"lines", &lines}}}
 			switch which {
 			case 0:
-				s.call = func() string { res, err := curve.PairFixedQ(P, lines); return deepHash(&res) + c18Err(err) }
+				s.call = func() string { res, err := curve.PairFixedQ(P, lines); return s.out(&res) + c18Err(err) }
 			case 1:
-				s.call = func() string { res, err := curve.MillerLoopFixedQ(P, lines); return deepHash(&res) + c18Err(err) }
+				s.call = func() string { res, err := curve.MillerLoopFixedQ(P, lines); return s.out(&res) + c18Err(err) }
 			case 2:
 				s.call = func() string { ok, err := curve.PairingCheckFixedQ(P, lines); return boolStr(ok) + c18Err(err) }
 			default:
@@ -85,7 +91,7 @@ func init() {
 				s.call = func() string {
 					res, err := curve.Pair(P, Q)
 					ok, err2 := curve.PairingCheck(P, Q)
-					return deepHash(&res) + c18Err(err) + boolStr(ok) + c18Err(err2)
+					return s.out(&res) + c18Err(err) + boolStr(ok) + c18Err(err2)
 				}
 			}
 			return s
@@ -127,15 +133,16 @@ func init() {
 			polys := make([][]fr.Element, nb)
 			digests := make([]kzg.Digest, nb)
 			proofs := make([]kzg.OpeningProof, nb)
-			points := rfrs(r, nb)
+			points := wfrs(r, nb)
 			for i := range polys {
-				polys[i] = rfrs(r, c18Pick(shape, 2, 1, size, func() int { return size - r.intn(3) }))
+				polys[i] = wfrs(r, c18Pick(shape, 2, 1, size, func() int { return size - r.intn(3) }))
 				digests[i], _ = kzg.Commit(polys[i], srs.Pk)
 				proofs[i], _ = kzg.Open(polys[i], points[i], srs.Pk)
 			}
 			if r.intn(4) == 0 { // an invalid proof: the error path must be repeatable too
 				proofs[nb-1].ClaimedValue = rfr(r)
 			}
+			polys, digests, proofs = c18Win(r, polys), c18Win(r, digests), c18Win(r, proofs)
 			nbTasks := 1 + r.intn(5)
 			if c18Par(shape) && r.coin() {
 				nbTasks = 0 // the default: 2 x NumCPU tasks
@@ -150,16 +157,21 @@ func init() {
 				s.call = func() string { return c18Err(kzg.BatchVerifyMultiPoints(digests, proofs, points, srs.Vk)) }
 			case 2:
 				s.args = []c18Arg{{"p", &polys[0]}, {"point", &points[0]}, {"srs", srs}}
-				s.call = func() string { pr, err := kzg.Open(polys[0], points[0], srs.Pk); return deepHash(&pr) + c18Err(err) }
+				s.call = func() string {
+					pr, err := kzg.Open(polys[0], points[0], srs.Pk)
+					// (same key, another polynomial and point: the first proof stays what it was)
+					pr2, err2 := kzg.Open(polys[nb-1], points[nb-1], srs.Pk)
+					return s.out(&pr) + c18Err(err) + s.out(&pr2) + c18Err(err2)
+				}
 			case 3:
 				s.args = []c18Arg{{"p", &polys[0]}, {"srs", srs}}
 				s.call = func() string {
 					if nbTasks == 0 {
 						d, err := kzg.Commit(polys[0], srs.Pk)
-						return deepHash(&d) + c18Err(err)
+						return s.out(&d) + c18Err(err)
 					}
 					d, err := kzg.Commit(polys[0], srs.Pk, nbTasks)
-					return deepHash(&d) + c18Err(err)
+					return s.out(&d) + c18Err(err)
 				}
 			default:
 				// the batch entry points (one point): polynomials is a slice of slices, all of it is snapshotted
@@ -167,13 +179,16 @@ func init() {
 				if r.coin() {
 					data = nil
 				}
+				data = c18Win2(r, data)
 				s.args = []c18Arg{{"polynomials", &polys}, {"digests", &digests}, {"point", &points[0]}, {"srs", srs}, {"dataTranscript", &data}}
 				s.call = func() string {
 					pr, err := kzg.BatchOpenSinglePoint(polys, digests, points[0], sha256.New(), srs.Pk, data...)
-					hpr := deepHash(&pr) // (before the verifier and the folder see the proof: they must leave it alone)
-					err1 := kzg.BatchVerifySinglePoint(digests, &pr, points[0], sha256.New(), srs.Vk, data...)
+					hpr := s.out(&pr) // (before the verifier and the folder see the proof: they must leave it alone)
+					ver := s.again(func() string {
+						return c18Err(kzg.BatchVerifySinglePoint(digests, &pr, points[0], sha256.New(), srs.Vk, data...))
+					})
 					fpr, fd, err2 := kzg.FoldProof(digests, &pr, points[0], sha256.New(), data...)
-					return hpr + c18Mark(deepHash(&pr) == hpr, "verifier-changed-proof") + c18Err(err) + c18Err(err1) + deepHash(&fpr) + deepHash(&fd) + c18Err(err2)
+					return hpr + c18Mark(deepHash(&pr) == hpr, "verifier-changed-proof") + c18Err(err) + ver + s.out(&fpr) + s.out(&fd) + c18Err(err2)
 				}
 			}
 			return s
@@ -200,12 +215,12 @@ func init() {
 				n = 4200 + r.intn(300)
 			}
 		}
-		points, scalars := rG1(r, n), rfrs(r, n)
+		points, scalars := wG1(r, n), wfrs(r, n)
 		n2 := n
 		if n2 > 24 {
 			n2 = 24
 		}
-		points2 := rG2(r, n2)
+		points2 := wG2(r, n2)
 		cfg := ecc.MultiExpConfig{NbTasks: []int{0, 1, 2, 3, 5, 16}[r.intn(6)]}
 		if c18Par(shape) {
 			cfg.NbTasks = []int{0, 0, 16, 5, 32, 3}[r.intn(6)]
@@ -220,7 +235,7 @@ func init() {
 			ja.FromJacobian(&j)
 			var b curve.G2Affine
 			_, err2 := b.MultiExp(points2, scalars[:n2], cfg)
-			return deepHash(&a) + deepHash(&ja) + deepHash(&b) + c18Err(err) + c18Err(err1) + c18Err(err2)
+			return s.out(&a) + s.out(&ja) + s.out(&b) + c18Err(err) + c18Err(err1) + c18Err(err2)
 		}
 		return s
 	})
@@ -249,7 +264,7 @@ func init() {
 		default:
 			d = fft.NewDomain(uint64(n), fft.WithShift(shift))
 		}
-		a := rfrs(r, n)
+		a := wfrs(r, n)
 		nbTasks := 1 + r.intn(8)
 		if c18Par(shape) {
 			nbTasks = []int{0, 16, 4, 0}[r.intn(4)] // 0 = the default (NumCPU)
@@ -280,6 +295,7 @@ func init() {
 			return deepHash(&b)
 		}
 		var turn atomic.Uint64
+		var s *c18Sess
 		run := func(rot int) string {
 			var res [8]string
 			for j := 0; j < 8; j++ {
@@ -300,7 +316,8 @@ func init() {
 			d.FFTInverse(b, fft.DIT, rt...)
 			ct, err := d.CosetTable()
 			cti, err1 := d.CosetTableInv()
-			out += boolStr(deepHash(&b) == deepHash(&a)) + deepHash(&ct) + c18Err(err) + deepHash(&cti) + c18Err(err1)
+			// (the coset tables are handed out by the shared domain: retained, compared again after the later transforms)
+			out += boolStr(deepHash(&b) == deepHash(&a)) + s.out(&ct) + c18Err(err) + s.out(&cti) + c18Err(err1)
 			if c18Par(shape) {
 				// the constructor and the exported table builder are entry points too: same arguments, same tables
 				var d2 *fft.Domain
@@ -314,11 +331,11 @@ func init() {
 				}
 				tbl := make([]fr.Element, n-n/8+3)
 				fft.BuildExpTable(shift, tbl)
-				out += deepHash(d2) + deepHash(&tbl)
+				out += s.out(d2) + s.out(&tbl)
 			}
 			return out
 		}
-		s := &c18Sess{args: []c18Arg{{"domain", d}, {"a", &a}, {"shift", &shift}}}
+		s = &c18Sess{args: []c18Arg{{"domain", d}, {"a", &a}, {"shift", &shift}}}
 		s.call = func() string { return run(0) }
 		s.concCall = func() string { return run(int(turn.Add(1) * 3)) }
 		return s
@@ -336,7 +353,7 @@ func init() {
 			n = 200 + 50*(shape&3) + r.intn(50)
 		}
 		base, base2 := rG1(r, 1)[0], rG2(r, 1)[0]
-		scalars := rfrs(r, n)
+		scalars := wfrs(r, n)
 		if r.intn(3) == 0 || shape == 1 {
 			scalars[r.intn(n)].SetZero()
 		}
@@ -351,7 +368,7 @@ func init() {
 		s.call = func() string {
 			a := curve.BatchScalarMultiplicationG1(&base, scalars)
 			b := curve.BatchScalarMultiplicationG2(&base2, scalars[:n2])
-			return deepHash(&a) + deepHash(&b)
+			return s.out(&a) + s.out(&b)
 		}
 		return s
 	})
@@ -361,7 +378,7 @@ func init() {
 			n = 1000 + 300*(shape&3) + r.intn(300)
 		}
 		aff := rG1(r, n)
-		points := make([]curve.G1Jac, n)
+		points := c18Win(r, make([]curve.G1Jac, n))
 		for i := range points {
 			points[i].FromAffine(&aff[i])
 			var z, z2, z3 fp.Element
@@ -379,7 +396,7 @@ func init() {
 			points[r.intn(n)].Z.SetZero() // infinity
 		}
 		s := &c18Sess{args: []c18Arg{{"points", &points}}}
-		s.call = func() string { a := curve.BatchJacobianToAffineG1(points); return deepHash(&a) }
+		s.call = func() string { a := curve.BatchJacobianToAffineG1(points); return s.out(&a) }
 		return s
 	})
 
@@ -390,7 +407,7 @@ func init() {
 			n = 1024 << (shape & 1)
 		}
 		d := fft.NewDomain(uint64(n))
-		coeffs := rfrs(r, n)
+		coeffs := wfrs(r, n)
 		P := iop.NewPolynomial(&coeffs, iop.Form{Basis: iop.Canonical, Layout: iop.Regular})
 		x := rfr(r)
 		nbTasks := 1 + r.intn(4)
@@ -413,10 +430,11 @@ func init() {
 			if n > 1 { // (on a domain of size 1 ToLagrangeCoset reads cosetTable[1]: index out of range, reported under C20)
 				q2.ToLagrangeCoset(d)
 			}
-			h3 := deepHash(q2)
+			h3 := s.out(q2)
 			q3 := P.Clone().ToBitReverse()
 			v, v3 := P.Evaluate(x), q3.Evaluate(x)
-			return h1 + h2 + h3 + deepHash(&v) + deepHash(&v3)
+			// (clones handed out by the shared polynomial: q2, q3 and a plain clone are retained)
+			return h1 + h2 + h3 + s.out(q3) + s.out(P.Clone()) + s.out(&v) + s.out(&v3)
 		}
 		return s
 	})
@@ -427,7 +445,7 @@ func init() {
 		if c18Par(shape) { // AsyncReadFrom converts the elements on NumCPU goroutines
 			n = 4000 + 1000*(shape&3) + r.intn(1000) // (long enough for the workers to overlap in time)
 		}
-		a, b, c := fr.Vector(rfrs(r, n)), fr.Vector(rfrs(r, n)), rfr(r)
+		a, b, c := fr.Vector(wfrs(r, n)), fr.Vector(wfrs(r, n)), rfr(r)
 		s := &c18Sess{args: []c18Arg{{"a", &a}, {"b", &b}, {"c", &c}}}
 		s.call = func() string {
 			m := n
@@ -453,8 +471,8 @@ func init() {
 			_, err1 := a2.ReadFrom(bytes.NewReader(enc))
 			_, err2, ch := a3.AsyncReadFrom(bytes.NewReader(enc))
 			err3 := <-ch
-			out += deepHash(&enc) + c18Err(err) + deepHash(&a2) + c18Err(err1) + deepHash(&a3) + c18Err(err2) + c18Err(err3)
-			return out + deepHash(&sum) + deepHash(&ip)
+			out += s.out(&enc) + c18Err(err) + s.out(&a2) + c18Err(err1) + s.out(&a3) + c18Err(err2) + c18Err(err3)
+			return out + s.out(&sum) + s.out(&ip)
 		}
 		return s
 	})
@@ -465,7 +483,7 @@ func init() {
 		if c18Par(shape) { // the decoder decompresses slices of points with parallel.Execute
 			n = 150 + 50*(shape&3) + r.intn(50)
 		}
-		ps, qs, es := rG1(r, n), rG2(r, c18Pick(shape, 1, 1, 2, func() int { return 1 + r.intn(4) })), rfrs(r, n)
+		ps, qs, es := wG1(r, n), wG2(r, c18Pick(shape, 1, 1, 2, func() int { return 1 + r.intn(4) })), wfrs(r, n)
 		raw := r.coin()
 		encode := func() []byte {
 			var buf bytes.Buffer
@@ -482,7 +500,7 @@ func init() {
 			}
 			return buf.Bytes()
 		}
-		data := encode()
+		data := c18Win(r, encode())
 		s := &c18Sess{args: []c18Arg{{"g1", &ps}, {"g2", &qs}, {"fr", &es}, {"data", &data}}}
 		s.call = func() string {
 			b := encode()
@@ -498,7 +516,7 @@ func init() {
 			for _, v := range []any{&ps2, &qs2, &es2, &p, &q, &e} {
 				out += c18Err(dec.Decode(v))
 			}
-			return out + deepHash(&ps2) + deepHash(&qs2) + deepHash(&es2) + deepHash(&p) + deepHash(&q) + deepHash(&e)
+			return out + s.out(&ps2) + s.out(&qs2) + s.out(&es2) + s.out(&p) + s.out(&q) + s.out(&e)
 		}
 		return s
 	})
@@ -528,8 +546,8 @@ func init() {
 	// ---- polynomial.Pool shared by callers ------------------------------------------------------------------------
 	reg("polypool", func(r *rng, shape int) *c18Sess {
 		nv := c18Pick(shape, 1, 2, 8, func() int { return 2 + r.intn(5) })
-		m := polynomial.MultiLin(rfrs(r, 1<<nv))
-		coords := rfrs(r, nv)
+		m := polynomial.MultiLin(wfrs(r, 1<<nv))
+		coords := wfrs(r, nv)
 		pool := polynomial.NewPool(1<<nv, 1<<(nv+2))
 		s := &c18Sess{args: []c18Arg{{"m", &m}, {"coordinates", &coords}}}
 		s.call = func() string {
@@ -570,7 +588,7 @@ func init() {
 		return srs
 	}
 	rvec := func(r *rng, n, kind int) fr.Vector {
-		v := fr.Vector(rfrs(r, n))
+		v := fr.Vector(wfrs(r, n))
 		switch kind {
 		case 1: // decreasing
 			sort.Sort(v)
@@ -614,7 +632,7 @@ func init() {
 	reg("plookupvec", func(r *rng, shape int) *c18Sess {
 		nt, nf := lookupSizes(r, shape)
 		t := rvec(r, nt, []int{0, 0, 0, 1, 3, 2}[r.intn(6)])
-		f := make(fr.Vector, nf)
+		f := c18Win(r, make(fr.Vector, nf))
 		for i := range f {
 			f[i] = t[r.intn(nt)]
 		}
@@ -629,9 +647,9 @@ func init() {
 		s := &c18Sess{args: []c18Arg{{"f", &f}, {"t", &t}, {"srs", srs}}}
 		s.call = func() string {
 			proof, err := plookup.ProveLookupVector(srs.Pk, f, t)
-			hp := deepHash(&proof) // (before the verifier sees the proof: it must leave it alone)
-			err1 := plookup.VerifyLookupVector(srs.Vk, proof)
-			return hp + c18Mark(deepHash(&proof) == hp, "verifier-changed-proof") + c18Err(err) + c18Err(err1)
+			hp := s.out(&proof) // (before the verifier sees the proof: it must leave it alone)
+			ver := s.again(func() string { return c18Err(plookup.VerifyLookupVector(srs.Vk, proof)) })
+			return hp + c18Mark(deepHash(&proof) == hp, "verifier-changed-proof") + c18Err(err) + ver
 		}
 		return s
 	})
@@ -647,8 +665,9 @@ func init() {
 		}
 		f := make([]fr.Vector, rows)
 		for i := range f {
-			f[i] = make(fr.Vector, nf)
+			f[i] = c18Win(r, make(fr.Vector, nf))
 		}
+		f, t = c18Win(r, f), c18Win(r, t)
 		for j := 0; j < nf; j++ {
 			k := r.intn(nt)
 			for i := range f {
@@ -663,9 +682,9 @@ func init() {
 		s := &c18Sess{args: []c18Arg{{"f", &f}, {"t", &t}, {"srs", srs}}}
 		s.call = func() string {
 			proof, err := plookup.ProveLookupTables(srs.Pk, f, t)
-			hp := deepHash(&proof)
-			err1 := plookup.VerifyLookupTables(srs.Vk, proof)
-			return hp + c18Mark(deepHash(&proof) == hp, "verifier-changed-proof") + c18Err(err) + c18Err(err1)
+			hp := s.out(&proof)
+			ver := s.again(func() string { return c18Err(plookup.VerifyLookupTables(srs.Vk, proof)) })
+			return hp + c18Mark(deepHash(&proof) == hp, "verifier-changed-proof") + c18Err(err) + ver
 		}
 		return s
 	})
@@ -675,7 +694,7 @@ func init() {
 			n = 128
 		}
 		t1 := rvec(r, n, []int{0, 0, 1, 3, 2}[r.intn(5)])
-		t2 := make(fr.Vector, n)
+		t2 := c18Win(r, make(fr.Vector, n))
 		for i, j := range c18Perm(r, n) {
 			t2[i] = t1[j]
 		}
@@ -686,9 +705,9 @@ func init() {
 		s := &c18Sess{args: []c18Arg{{"t1", &t1}, {"t2", &t2}, {"srs", srs}}}
 		s.call = func() string {
 			proof, err := permutation.Prove(srs.Pk, t1, t2)
-			hp := deepHash(&proof)
-			err1 := permutation.Verify(srs.Vk, proof)
-			return hp + c18Mark(deepHash(&proof) == hp, "verifier-changed-proof") + c18Err(err) + c18Err(err1)
+			hp := s.out(&proof)
+			ver := s.again(func() string { return c18Err(permutation.Verify(srs.Vk, proof)) })
+			return hp + c18Mark(deepHash(&proof) == hp, "verifier-changed-proof") + c18Err(err) + ver
 		}
 		return s
 	})
@@ -697,18 +716,28 @@ func init() {
 		if c18Par(shape) { // the evaluation domain has rho x n points
 			n = 256 << (shape & 1)
 		}
-		p := rfrs(r, n)
+		p := wfrs(r, n)
 		pos := uint64(r.intn(n))
+		pos2 := uint64(r.intn(n))
 		s := &c18Sess{args: []c18Arg{{"p", &p}}}
 		// the Iopp owns a (stateful) hash: every call takes its own, the polynomial is the shared object
 		s.call = func() string {
 			iopp := fri.RADIX_2_FRI.New(uint64(n), sha256.New())
 			pp, err := iopp.BuildProofOfProximity(p)
 			op, err1 := iopp.Open(p, pos)
-			hp := deepHash(&pp) + deepHash(&op)
-			err2 := iopp.VerifyProofOfProximity(pp)
-			err3 := iopp.VerifyOpening(pos, op, pp)
-			return hp + c18Mark(deepHash(&pp)+deepHash(&op) == hp, "verifier-changed-proof") + c18Err(err) + c18Err(err1) + c18Err(err2) + c18Err(err3)
+			hp := s.out(&pp) + s.out(&op)
+			ver := s.again(func() string {
+				return c18Err(iopp.VerifyProofOfProximity(pp)) + c18Err(iopp.VerifyOpening(pos, op, pp))
+			})
+			hp1 := deepHash(&pp) + deepHash(&op)
+			// the SAME Iopp builds and opens again (same polynomial, another position): the proofs handed out first stay
+			pp2, err4 := iopp.BuildProofOfProximity(p)
+			op2, err5 := iopp.Open(p, pos2)
+			ver2 := s.again(func() string {
+				return c18Err(iopp.VerifyProofOfProximity(pp2)) + c18Err(iopp.VerifyOpening(pos2, op2, pp2))
+			})
+			return hp + c18Mark(hp1 == hp, "verifier-changed-proof") + c18Mark(deepHash(&pp)+deepHash(&op) == hp, "second-proof-changed-first") +
+				c18Err(err) + c18Err(err1) + ver + s.out(&pp2) + s.out(&op2) + c18Err(err4) + c18Err(err5) + ver2
 		}
 		return s
 	})
@@ -723,9 +752,9 @@ func init() {
 		digests := make([]kzg.Digest, nb)
 		total := 0
 		for i := range polys {
-			polys[i] = rfrs(r, 1+r.intn(maxSize))
+			polys[i] = wfrs(r, 1+r.intn(maxSize))
 			if shape <= 2 || c18Par(shape) {
-				polys[i] = rfrs(r, maxSize)
+				polys[i] = wfrs(r, maxSize)
 			}
 			points[i] = rvec(r, c18Pick(shape, 1, 2, 3, func() int { return 1 + r.intn(3) }), []int{0, 1}[r.intn(2)])
 			total += len(points[i])
@@ -738,12 +767,15 @@ func init() {
 		if r.coin() {
 			data = nil
 		}
+		polys, digests, points, data = c18Win(r, polys), c18Win(r, digests), c18Win(r, points), c18Win2(r, data)
 		s := &c18Sess{args: []c18Arg{{"polynomials", &polys}, {"digests", &digests}, {"points", &points}, {"srs", srs}, {"dataTranscript", &data}}}
 		s.call = func() string {
 			proof, err := shplonk.BatchOpen(polys, digests, points, sha256.New(), srs.Pk, data...)
-			hp := deepHash(&proof)
-			err1 := shplonk.BatchVerify(proof, digests, points, sha256.New(), srs.Vk, data...)
-			return hp + c18Mark(deepHash(&proof) == hp, "verifier-changed-proof") + c18Err(err) + c18Err(err1)
+			hp := s.out(&proof)
+			ver := s.again(func() string {
+				return c18Err(shplonk.BatchVerify(proof, digests, points, sha256.New(), srs.Vk, data...))
+			})
+			return hp + c18Mark(deepHash(&proof) == hp, "verifier-changed-proof") + c18Err(err) + ver
 		}
 		return s
 	})
@@ -756,9 +788,9 @@ func init() {
 			p[i] = make([][]fr.Element, c18Pick(shape, 1, 2, 4, func() int { return 1 + r.intn(5) }))
 			m := 0
 			for j := range p[i] {
-				p[i][j] = rfrs(r, c18Pick(shape, 2, 1, 8, func() int { return 1 + r.intn(10) }))
+				p[i][j] = wfrs(r, c18Pick(shape, 2, 1, 8, func() int { return 1 + r.intn(10) }))
 				if c18Par(shape) {
-					p[i][j] = rfrs(r, 40+r.intn(8))
+					p[i][j] = wfrs(r, 40+r.intn(8))
 				}
 				if len(p[i][j]) > m {
 					m = len(p[i][j])
@@ -779,14 +811,20 @@ func init() {
 		if r.coin() {
 			data = nil
 		}
+		for i := range p {
+			p[i] = c18Win(r, p[i])
+		}
+		p, digests, points, data = c18Win(r, p), c18Win(r, digests), c18Win(r, points), c18Win2(r, data)
 		s := &c18Sess{args: []c18Arg{{"p", &p}, {"digests", &digests}, {"points", &points}, {"srs", srs}, {"dataTranscript", &data}}}
 		s.call = func() string {
 			fo := fflonk.Fold(p[0])
 			d0, err0 := fflonk.FoldAndCommit(p[nbSets-1], srs.Pk)
 			proof, err := fflonk.BatchOpen(p, digests, points, sha256.New(), srs.Pk, data...)
-			hp := deepHash(&proof)
-			err1 := fflonk.BatchVerify(proof, digests, points, sha256.New(), srs.Vk, data...)
-			return deepHash(&fo) + deepHash(&d0) + c18Err(err0) + hp + c18Mark(deepHash(&proof) == hp, "verifier-changed-proof") + c18Err(err) + c18Err(err1)
+			hp := s.out(&proof)
+			ver := s.again(func() string {
+				return c18Err(fflonk.BatchVerify(proof, digests, points, sha256.New(), srs.Vk, data...))
+			})
+			return s.out(&fo) + s.out(&d0) + c18Err(err0) + hp + c18Mark(deepHash(&proof) == hp, "verifier-changed-proof") + c18Err(err) + ver
 		}
 		return s
 	})
@@ -808,20 +846,23 @@ func init() {
 			if c18Par(shape) {
 				n = 40 + r.intn(20)
 			}
-			bases[i] = rG1(r, n)
+			bases[i] = wG1(r, n)
 			pks[i].Basis = c18Clone(bases[i])
 			pks[i].BasisExpSigma = make([]curve.G1Affine, n)
 			for j := range bases[i] {
 				pks[i].BasisExpSigma[j].ScalarMultiplication(&bases[i][j], &sigma)
 			}
-			values[i] = rfrs(r, n)
+			values[i] = wfrs(r, n)
 		}
+		pks, values, bases = c18Win(r, pks), c18Win(r, values), c18Win(r, bases)
 		coeff := rfr(r)
+		// a key over OTHER bases with the lengths of key 0 (what a key file written elsewhere decodes to)
+		other := pedersen.ProvingKey{Basis: rG1(r, len(bases[0])), BasisExpSigma: rG1(r, len(bases[0]))}
 		vks := make([]pedersen.VerifyingKey, nb)
 		for i := range vks {
 			vks[i] = vk
 		}
-		s := &c18Sess{args: []c18Arg{{"pk", &pks}, {"vk", &vk}, {"vks", &vks}, {"values", &values}, {"combinationCoeff", &coeff}, {"bases", &bases}}}
+		s := &c18Sess{args: []c18Arg{{"pk", &pks}, {"vk", &vk}, {"vks", &vks}, {"values", &values}, {"combinationCoeff", &coeff}, {"bases", &bases}, {"other", &other}}}
 		s.call = func() string {
 			out := ""
 			coms := make([]curve.G1Affine, nb)
@@ -830,7 +871,7 @@ func init() {
 				var err, err1 error
 				coms[i], err = pks[i].Commit(values[i])
 				poks[i], err1 = pks[i].ProveKnowledge(values[i])
-				out += deepHash(&coms[i]) + c18Err(err) + deepHash(&poks[i]) + c18Err(err1)
+				out += s.out(&coms[i]) + c18Err(err) + s.out(&poks[i]) + c18Err(err1)
 			}
 			out += c18Err(vk.Verify(coms[nb-1], poks[nb-1]))
 			bp, err := pedersen.BatchProve(pks, values, coeff)
@@ -840,13 +881,21 @@ func init() {
 			} else {
 				err1 = pedersen.BatchVerifyMultiVk(vks, coms, []curve.G1Affine{bp}, coeff)
 			}
-			out += deepHash(&bp) + c18Err(err) + c18Err(err1)
+			out += s.out(&bp) + c18Err(err) + c18Err(err1)
 			// Setup is randomised: only its consistency and the purity of `bases` are observed
 			spk, svk, err3 := pedersen.Setup(bases, pedersen.WithG2Point(vk.G))
 			ok := err3 == nil && len(spk) == nb && svk.G == vk.G
 			if ok {
 				c, e1 := spk[0].Commit(values[0])
 				ok = e1 == nil && c == coms[0]
+			}
+			// ARGUMENTS OF AN EARLIER CALL: the key returned by Setup is now the documented DESTINATION of ReadFrom (it
+			// decodes another key of the same shape); `bases`, the argument of the earlier Setup call, is not
+			if err3 == nil && len(spk) == nb {
+				var buf bytes.Buffer
+				_, e2 := other.WriteTo(&buf)
+				_, e3 := spk[0].ReadFrom(&buf)
+				out += c18Err(e2) + c18Err(e3) + s.out(&spk[0])
 			}
 			return out + boolStr(ok)
 		}
@@ -871,7 +920,7 @@ func init() {
 		num := make([]*iop.Polynomial, m)
 		den := make([]*iop.Polynomial, m)
 		bitrev := shape > 2 && r.coin()
-		all := rfrs(r, n*m)
+		all := wfrs(r, n*m)
 		for i := range num {
 			num[i] = mkPoly(c18Clone(all[i*n:(i+1)*n]), bitrev)
 		}
@@ -910,7 +959,7 @@ func init() {
 			z2, err2 := iop.BuildRatioCopyConstraint(num, sigma, beta, gamma, form, d)
 			h2, err3 := iop.Evaluate(f, nil, iop.Form{Layout: iop.BitReverse, Basis: iop.LagrangeCoset}, ents...)
 			q, err4 := iop.DivideByXMinusOne(h, domains)
-			return deepHash(z1) + c18Err(err1) + deepHash(z2) + c18Err(err2) + deepHash(h2) + c18Err(err3) + deepHash(q) + c18Err(err4)
+			return s.out(z1) + c18Err(err1) + s.out(z2) + c18Err(err2) + s.out(h2) + c18Err(err3) + s.out(q) + c18Err(err4)
 		}
 		return s
 	})
@@ -929,27 +978,27 @@ func init() {
 		if err != nil {
 			panic(err)
 		}
-		coeffs := c18Clone(srs.Pk.G1)
+		coeffs := c18Win(r, c18Clone(srs.Pk.G1))
 		s := &c18Sess{args: []c18Arg{{"coeffs", &coeffs}, {"alpha", alpha}}}
 		s.call = func() string {
 			lag, err := kzg.ToLagrangeG1(coeffs)
 			srs2, err1 := kzg.NewSRS(uint64(size), alpha)
-			return deepHash(&lag) + c18Err(err) + deepHash(srs2) + c18Err(err1)
+			return s.out(&lag) + c18Err(err) + s.out(srs2) + c18Err(err1)
 		}
 		return s
 	})
 	reg("polynomial", func(r *rng, shape int) *c18Sess {
 		n1 := c18Pick(shape, 1, 2, 40, func() int { return 1 + r.intn(20) })
 		n2 := c18Pick(shape, 1, 1, 33, func() int { return 1 + r.intn(20) })
-		p1, p2 := polynomial.Polynomial(rfrs(r, n1)), polynomial.Polynomial(rfrs(r, n2))
+		p1, p2 := polynomial.Polynomial(wfrs(r, n1)), polynomial.Polynomial(wfrs(r, n2))
 		c := rfr(r)
 		nv := c18Pick(shape, 1, 2, 6, func() int { return 1 + r.intn(5) })
 		if c18Par(shape) { // FoldParallel: blocks of the table folded by the workers of a shared utils.WorkerPool
 			nv = 11 + shape&1
 		}
-		ml := polynomial.MultiLin(rfrs(r, 1<<nv))
-		q, hh := rfrs(r, nv), rfrs(r, nv)
-		vals := rfrs(r, c18Pick(shape, 1, 2, 9, func() int { return 1 + r.intn(9) }))
+		ml := polynomial.MultiLin(wfrs(r, 1<<nv))
+		q, hh := wfrs(r, nv), wfrs(r, nv)
+		vals := wfrs(r, c18Pick(shape, 1, 2, 9, func() int { return 1 + r.intn(9) }))
 		s := &c18Sess{args: []c18Arg{{"p1", &p1}, {"p2", &p2}, {"c", &c}, {"m", &ml}, {"q", &q}, {"h", &hh}, {"v", &vals}}}
 		s.call = func() string {
 			var sum, dif, sc polynomial.Polynomial
@@ -959,7 +1008,7 @@ func init() {
 			ev := p1.Eval(&c)
 			cl := p1.Clone()
 			cl.AddConstantInPlace(&c) // the clone is the caller's
-			out := deepHash(&sum) + deepHash(&dif) + deepHash(&sc) + deepHash(&ev) + deepHash(&cl) + boolStr(p1.Equal(p2)) + p1.Text(10)
+			out := s.out(&sum) + s.out(&dif) + s.out(&sc) + s.out(&ev) + s.out(&cl) + boolStr(p1.Equal(p2)) + p1.Text(10)
 			mc := ml.Clone()
 			mc.Fold(c)
 			mp := ml.Clone()
@@ -971,7 +1020,77 @@ func init() {
 			eq.Eq(q)
 			msum, ee := ml.Sum(), polynomial.EvalEq(q, hh)
 			ip := polynomial.InterpolateOnRange(vals)
-			return out + deepHash(&mc) + deepHash(&eq) + deepHash(&msum) + deepHash(&ee) + deepHash(&ip)
+			return out + s.out(&mc) + s.out(&eq) + s.out(&msum) + s.out(&ee) + s.out(&ip)
+		}
+		return s
+	})
+
+	// ---- exponentiations / scalar multiplications that SHARE one *big.Int --------------------------------------------
+	// The scalar objects k, k2 are read-only arguments used by every caller at the same time: zero, small negative, huge
+	// negative and random signed values. Besides the before/after snapshots an OBSERVER goroutine (c18Sess.watch) compares
+	// the shared scalars with their copies while the callers run.
+	reg("scalarexp", func(r *rng, shape int) *c18Sess {
+		k, k2 := c18Scalar(r, shape, fr.Bits), c18Scalar(r, 3+r.intn(8), fr.Bits)
+		P, Q := rG1(r, 2), rG2(r, 1)
+		gt, err := curve.Pair(P[:1], Q)
+		if err != nil {
+			panic(err)
+		}
+		x := rfr(r)
+		var y fp.Element
+		y.SetBigInt(r.bigBits(fp.Bits + 64))
+		var pj curve.G1Jac
+		pj.FromAffine(&P[0])
+		var qj curve.G2Jac
+		qj.FromAffine(&Q[0])
+		ed := twistededwards.GetEdwardsCurve()
+		var ea twistededwards.PointAffine
+		ea.ScalarMultiplication(&ed.Base, r.bigBits(100))
+		var ep twistededwards.PointProj
+		ep.FromAffine(&ea)
+		var ee twistededwards.PointExtended
+		ee.FromAffine(&ea)
+		s := &c18Sess{args: []c18Arg{{"k", k}, {"k2", k2}, {"x", &gt}, {"P", &P}, {"Q", &Q}, {"pj", &pj}, {"qj", &qj}, {"fr", &x}, {"fp", &y},
+			{"ea", &ea}, {"ep", &ep}, {"ee", &ee}}}
+		s.watch = c18ScalarWatch(k, k2)
+		sub := func(f func() string) string { return c18SafeCall(f) + "|" } // (a panic of one entry point does not hide the others)
+		s.call = func() string {
+			return sub(func() string { var z curve.GT; z.Exp(gt, k); return s.out(&z) }) +
+				sub(func() string { var z curve.GT; z.ExpGLV(gt, k); return s.out(&z) }) +
+				sub(func() string { var z curve.GT; z.CyclotomicExp(gt, k); return s.out(&z) }) +
+				sub(func() string { var z curve.G1Jac; z.ScalarMultiplication(&pj, k); return s.out(&z) }) +
+				sub(func() string { var z curve.G1Affine; z.ScalarMultiplication(&P[0], k); return s.out(&z) }) +
+				sub(func() string { var z curve.G1Jac; z.ScalarMultiplicationBase(k); return s.out(&z) }) +
+				sub(func() string { var z curve.G1Jac; z.JointScalarMultiplication(&P[0], &P[1], k, k2); return s.out(&z) }) +
+				sub(func() string { var z curve.G1Jac; z.JointScalarMultiplicationBase(&P[1], k2, k); return s.out(&z) }) +
+				sub(func() string { var z curve.G2Jac; z.ScalarMultiplication(&qj, k); return s.out(&z) }) +
+				sub(func() string { var z curve.G2Affine; z.ScalarMultiplication(&Q[0], k); return s.out(&z) }) +
+				sub(func() string { var z curve.G2Affine; z.ScalarMultiplicationBase(k); return s.out(&z) }) +
+				sub(func() string { var z fr.Element; z.Exp(x, k); return s.out(&z) }) +
+				sub(func() string { var z fp.Element; z.Exp(y, k); return s.out(&z) }) +
+				sub(func() string { var z twistededwards.PointAffine; z.ScalarMultiplication(&ea, k); return s.out(&z) }) +
+				sub(func() string { var z twistededwards.PointProj; z.ScalarMultiplication(&ep, k); return s.out(&z) }) +
+				sub(func() string { var z twistededwards.PointExtended; z.ScalarMultiplication(&ee, k); return s.out(&z) })
+		}
+		return s
+	})
+
+	// ---- hashing to the fields and to the curve: msg and dst are WINDOWS of larger buffers -----------------------------
+	reg("hashto", func(r *rng, shape int) *c18Sess {
+		msg := c18Win(r, r.bytes(c18Pick(shape, 0, 1, 300, func() int { return r.intn(100) })))
+		dst := c18Win(r, r.bytes(c18Pick(shape, 1, 16, 255, func() int { return 1 + r.intn(60) })))
+		count := 1 + r.intn(3)
+		s := &c18Sess{args: []c18Arg{{"msg", &msg}, {"dst", &dst}}}
+		s.call = func() string {
+			e1, err1 := fr.Hash(msg, dst, count)
+			e2, err2 := fp.Hash(msg, dst, count)
+			p1, err3 := curve.HashToG1(msg, dst)
+			p2, err4 := curve.EncodeToG1(msg, dst)
+			q1, err5 := curve.HashToG2(msg, dst)
+			q2, err6 := curve.EncodeToG2(msg, dst)
+			x, err7 := fhash.ExpandMsgXmd(msg, dst, 16*count+len(msg)%7)
+			return s.out(&e1) + c18Err(err1) + s.out(&e2) + c18Err(err2) + s.out(&p1) + c18Err(err3) + s.out(&p2) + c18Err(err4) +
+				s.out(&q1) + c18Err(err5) + s.out(&q2) + c18Err(err6) + s.out(&x) + c18Err(err7)
 		}
 		return s
 	})
